@@ -54,6 +54,19 @@ def rdev_differential(ctx, V, consts, devh, n):
                         "device 0's trajectory differs when only device 1 misbehaves; first difference at line %d:\nhealthy: %s\nsick:    %s" % (k, va[k:k + 2], vb[k:k + 2]))
 
 
+def client_inputs(sess):
+    """(virtual time, event) of everything the clients did: the two runs of a differential are comparable only if these agree
+    (the environment sends a request when the previous reply arrived, so a run in which replies are delayed asks at other times)"""
+    out = []
+    for k, evs in enumerate(sess.sim.events):
+        if k >= len(sess.rounds): break
+        t = sess.rounds[k].now
+        for e in evs:
+            if e.startswith("ADV "): t += int(e.split()[1])
+            elif e == "CONN" or e.startswith("IN c") or e.startswith("EOF c"): out.append((t, e))
+    return out
+
+
 def pmsim_differential(ctx, V, exe, n):
     """whole daemon (real transports): the same scenario with device d healthy vs sick; clients whose requests never name a node of d must get
     byte-identical reply streams, and the other devices must receive identical bytes (content; virtual timestamps are compared and counted)"""
@@ -73,6 +86,12 @@ def pmsim_differential(ctx, V, exe, n):
         V.case(("pmsim-diff", sc.cfg.text(), repr(sb.script)), nontrivial=True); V.count("pmsim-differential")
         for bad in pmcheck.mon_alive(sbs, sb):
             V.violation(bad[0], bad[1], sb.describe(), bad[2])
+        same_inputs = client_inputs(sa) == client_inputs(sbs)
+        V.count("inputs-equal" if same_inputs else "inputs-differ")
+        if not same_inputs and any(d.ping for d in sc.cfg.devs if d.name != sick):
+            # a healthy device with a ping period behaves differently when asked at different times (a request queued behind a ping that is
+            # being answered slowly shares its fate): not interference by the sick device but a different question; counted, not judged
+            V.count("skipped:ping-and-different-request-times"); continue
         for k in sa.client_out:
             if sa.client_out.get(k) != sbs.client_out.get(k):
                 V.violation("interference", "client-stream", dict(sb.describe(), sick=sick, healthy=sa.client_out.get(k, b"").decode("latin-1")[-600:], with_sick=sbs.client_out.get(k, b"").decode("latin-1")[-600:]),
